@@ -45,6 +45,13 @@ def run : Runner
     let flags ← bytes? flags
     -- `extractMsg` is proved equal to the parser-style independent evaluation (Props/C12), so a DIFF is a soundness violation
     pure { model := extractTok ⟨n, hs, flags⟩, prop := "spec" }
+  | "exlim", [_, n, hs, flags], _ => do
+    -- the same evaluation while the process-wide block size setting of bchd (wire.SetLimits) is larger: the bound on the
+    -- transaction count is the exported constant fixed when the package was initialised, not the current setting
+    let n ← nat? n
+    let hs ← list? expandHash hs
+    let flags ← bytes? flags
+    pure { model := extractTok ⟨n, hs, flags⟩, prop := "spec" }
   | op, args, impl => C10.run op args impl
 
 end Bch.Drive.C11
